@@ -36,7 +36,7 @@ TIERS = {
     "quick": {"examples": 24000, "budget_s": 110, "time_families": 12, "quick_time_subset": ["layer_blocks", "keyword_run", "unclosed_blocks", "unclosed_blocks_with_body"]},
     "thorough": {"examples": 500000, "budget_s": 2400, "time_families": 12, "atheris_runs": 200000},
 }
-PARTS = ["search", "fixed_part", "pairs_part"]
+PARTS = ["search", "fixed_part", "pairs_part", "backtrack_part"]
 
 _TOK = re.compile(r'"(?:\\"|[^"])*"|\'(?:\\\'|[^\'])*\'|#[^\n]*|/\*.*?\*/|\s+|[A-Za-z0-9_.:\-]+|.', re.S)
 
@@ -436,7 +436,84 @@ def timing(acc, tier):
                                        "seed": env.verif_seed(), "tier": tier})
 
 
+# ------------------------------------------------------------------ short inputs that must not take long
+
+CPU_LIMIT_S = 5   # a few hundred characters load or fail in milliseconds; 5 s of CPU is > 1000 times that
+
+BT_CONTEXTS = ["", "MAP NAME ", "CLASS EXPRESSION ", "LAYER FILTER (", "STYLE COLOR "]
+BT_OPENERS = ['"', "'", "/*", "[", "{", "/", "(", "`", "#", '"#', "'#", "(\"", "('", "/*/", "'[", '"/']
+BT_UNITS = ["\\x", "\\\\", "\\'", '\\"', "*", "a", " ", "\\ ", "\\\n", "x\\", "(", "[", "{", "/", "%", "'x", '"x', "*/*", "\n", "\\d\\", "ab", "\t"]
+BT_TAILS = ["", "\n", " END", "x"]
+
+
+def guarded_cpu(text, comments=False):
+    """loads(text) in a forked child whose CPU time the kernel limits: -> None if it finished (parsed or rejected),
+    else a message. The limit is on CPU time, so a loaded machine cannot turn a slow run into a violation."""
+    import resource
+    import signal
+
+    W = env.Workers.get()
+    W.parser(comments, False)   # built before the fork
+    pid = os.fork()
+    if pid == 0:
+        try:
+            resource.setrlimit(resource.RLIMIT_CPU, (CPU_LIMIT_S, CPU_LIMIT_S + 1))
+            try:
+                W.loads(text, comments=comments, expand=False)
+            except BaseException:
+                pass
+        finally:
+            os._exit(0)
+    _, status = os.waitpid(pid, 0)
+    if os.WIFSIGNALED(status) and os.WTERMSIG(status) in (signal.SIGXCPU, signal.SIGKILL):
+        return f"loads used more than {CPU_LIMIT_S} s of CPU on an input of {len(text)} characters"
+    return None
+
+
+def backtrack_inputs(tier):
+    ks = (24, 48) if tier == "quick" else (20, 32, 64, 120)
+    for ctx in BT_CONTEXTS:
+        for op in BT_OPENERS:
+            for u in BT_UNITS:
+                for k in ks:
+                    yield ctx + op + u * k + BT_TAILS[(len(ctx) + len(op) + len(u) + k) % len(BT_TAILS)]
+    if tier != "quick":
+        for op in BT_OPENERS:
+            for u in BT_UNITS:
+                for v in BT_UNITS:
+                    if u != v:
+                        yield "MAP NAME " + op + (u + v) * 30
+
+
+def backtrack_part(acc: Acc, tier, shard, nshards):
+    """Unterminated strings / regexes / comments / brackets filled with repeated units (escapes, quotes, stars):
+    a few hundred characters that a backtracking terminal could spend exponential time on. Each is loaded in a
+    forked child under a kernel CPU limit."""
+    for i, text in enumerate(backtrack_inputs(tier)):
+        if i % nshards != shard:
+            continue
+        if acc.over_budget():
+            return
+        msg = guarded_cpu(text, comments=(i // nshards) % 5 == 0)
+        acc.evaluations += 1
+        acc.exhaustive_cases += 1
+        acc.nontrivial.add(env.fp(["bt", text]))
+        acc.cls("family:short_repetitive_unterminated")
+        if i % 997 == 0 and len(acc.samples) < 2:
+            acc.samples.append({"family": "short repetitive unterminated", "text": text[:120]})
+        if msg:
+            b = "not_prompt"
+            if not any(v["bucket"] == b for v in acc.violations):
+                acc.violations.append({"bucket": b, "message": msg + f": {text!r:.100}", "case": {"guarded": text}, "search": "backtrack", "shard": shard,
+                                       "round": 0, "seed": env.verif_seed(), "tier": tier})
+            if sum(1 for v in acc.violations) >= 1:
+                return   # every further input of the family would cost the full limit
+
+
 def replay(case):
+    if "guarded" in case:
+        msg = guarded_cpu(case["guarded"])
+        return [Discrepancy("not_prompt", msg, case)] if msg else []
     if "timing_family" in case:
         acc = Acc()
         timing(acc, "thorough")
